@@ -51,12 +51,15 @@ def repo_hash():
 
 
 def _prune_builds(keep):
+    """drop old implementation builds: keep the 6 most recent ones and everything touched
+    within the last 45 minutes (concurrent checks must not delete each other's build)"""
     if not os.path.isdir(BUILD):
         return
     ds = [os.path.join(BUILD, d) for d in os.listdir(BUILD) if d.startswith("impl-")]
     ds.sort(key=lambda d: os.path.getmtime(d), reverse=True)
-    for d in ds[2:]:
-        if os.path.basename(d) != keep:
+    now = time.time()
+    for d in ds[6:]:
+        if os.path.basename(d) != keep and now - os.path.getmtime(d) > 45 * 60:
             shutil.rmtree(d, ignore_errors=True)
 
 
@@ -104,6 +107,10 @@ def build_harness(name, extra_flags=()):
     src = os.path.join(VERIF, "harness", name + ".cpp")
     hh = _hash_tree([src] + sorted(glob.glob(os.path.join(VERIF, "harness", "*.hpp"))))
     exe = os.path.join(d, "h-%s-%s" % (name, hh))
+    try:
+        os.utime(d, None)
+    except OSError:
+        pass
     if os.path.exists(exe):
         return exe, None
     for old in glob.glob(os.path.join(d, "h-%s-*" % name)):
@@ -249,28 +256,77 @@ def run_lines(exe, args, infile, timeout=600):
     return rc, out.split("\n")
 
 
-def run_harness_resilient(exe, args, infile, ncases, timeout=600):
-    """Run a harness that prints 'R <i> <answer>' per case; CRAB_ERROR calls exit(1), so
-    on abnormal exit the run is restarted after the aborted case (which gets 'ABORT')."""
+def _run_until_stall(cmd, stall, deadline):
+    """run cmd, collecting stdout lines; kill it when no new line arrives within `stall`
+    seconds or the deadline passes.  Returns (lines, status) with status in ok|stall|exit."""
+    import threading, queue
+    p = subprocess.Popen(cmd, stdout=subprocess.PIPE, stderr=subprocess.DEVNULL,
+                         universal_newlines=True, errors="replace", bufsize=1)
+    q = queue.Queue()
+
+    def reader():
+        for line in p.stdout:
+            q.put(line)
+        q.put(None)
+    th = threading.Thread(target=reader, daemon=True)
+    th.start()
+    lines = []
+    status = "ok"
+    while True:
+        try:
+            wait = min(stall, max(0.1, deadline - time.time()))
+            item = q.get(timeout=wait)
+        except queue.Empty:
+            status = "stall"
+            p.kill()
+            break
+        if item is None:
+            break
+        lines.append(item.rstrip("\n"))
+        if time.time() > deadline:
+            status = "stall"
+            p.kill()
+            break
+    try:
+        p.wait(timeout=5)
+    except Exception:
+        p.kill()
+    if status == "ok" and p.returncode not in (0, None):
+        status = "exit"
+    return lines, status
+
+
+def run_harness_resilient(exe, args, infile, ncases, timeout=600, stall=25):
+    """Run a harness that prints 'R <i> <answer>' per case.  CRAB_ERROR calls exit(1): the case
+    after the last answer is marked ABORT and the run restarts after it.  A case that
+    produces no answer within `stall` seconds is marked TIMEOUT (a hang must not block the
+    check); after 4 timeouts the remaining cases stay MISSING."""
     results = {}
     start = 0
-    t0 = time.time()
-    while start < ncases:
-        rc, out = sh([exe] + list(args) + [infile, str(start)], timeout=timeout)
+    deadline = time.time() + timeout
+    timeouts = 0
+    while start < ncases and time.time() < deadline:
+        lines, status = _run_until_stall([exe] + list(args) + [infile, str(start)], stall, deadline)
         last = start - 1
-        for line in out.split("\n"):
+        for line in lines:
             if line.startswith("R "):
                 sp = line.split(" ", 2)
-                i = int(sp[1])
+                try:
+                    i = int(sp[1])
+                except ValueError:
+                    continue
                 results[i] = sp[2] if len(sp) > 2 else ""
                 last = max(last, i)
         if last + 1 >= ncases:
             break
-        # aborted on case last+1
-        results[last + 1] = "ABORT"
+        if status == "stall":
+            results[last + 1] = "TIMEOUT"
+            timeouts += 1
+            if timeouts >= 4:
+                break
+        else:
+            results[last + 1] = "ABORT"
         start = last + 2
-        if time.time() - t0 > timeout:
-            break
     return results
 
 
